@@ -205,6 +205,47 @@ class RangeAnalysis:
         self.events.append((what, ok, "" if ok else "its %s bound leaves the element type's range at (lower, higher) = (%s)" % (which, v.upper())))
 
 
+def exact_at_coincidence(t):
+    """symbolic value of the term when both neighbours are the same lane element L, using only rewrites that are exact in
+    machine arithmetic (x − x = 0 for identical operands, 0·x = 0, 0/c = 0, x + 0 = x, conversions of 0); a conversion
+    of L to f64 is a *lossy image* F(L) for wide integer types and converting it back is not L.
+    returns 'L', 'ZERO', or a description of the inexact value"""
+    k = t[0]
+    if k == "sym":
+        return "L" if t[1] in ("lower", "higher") else ("sym", t[1])
+    if k == "num":
+        return "ZERO" if t[1] == 0 else ("num", t[1])
+    if k == "fn":
+        return ("fn", t[1])
+    if k == "conv":
+        a = exact_at_coincidence(t[2])
+        if a == "ZERO":
+            return "ZERO"
+        if t[1].startswith("to_"):
+            return ("F", a)
+        if isinstance(a, tuple) and a[0] == "F":
+            return ("roundtrip", a[1])
+        return (t[1], a)
+    if k in ("add", "sub", "mul", "div"):
+        a, c = exact_at_coincidence(t[1]), exact_at_coincidence(t[2])
+        if k == "sub":
+            if a == c:
+                return "ZERO"
+            if c == "ZERO":
+                return a
+        if k == "add":
+            if a == "ZERO":
+                return c
+            if c == "ZERO":
+                return a
+        if k == "mul" and (a == "ZERO" or c == "ZERO"):
+            return "ZERO"
+        if k == "div" and a == "ZERO":
+            return "ZERO"
+        return (k, a, c)
+    return ("?", k)
+
+
 def rule_r26_ranges(ctx, prog, rule="R26", bodies=None):
     lo, hi, q, n = ("sym", "lower"), ("sym", "higher"), ("sym", "q"), ("sym", "len")
     names = {1: lo, 2: hi, 3: q, 4: n}
@@ -221,6 +262,12 @@ def rule_r26_ranges(ctx, prog, rule="R26", bodies=None):
         except Unrecognised as ex:
             ctx.ob(rule, "%s/term" % s_, False, b.where(), "anchor not recognised: %s" % ex, what="anchor not recognised")
             continue
+        ex = exact_at_coincidence(t)
+        ctx.ob(rule, "%s/coincide-exactly" % s_, ex == "L", b.where(),
+               "with higher = lower the value is the lane element itself, through machine-exact steps only (x − x, 0·x, 0/c, x + 0, conversions of 0)"
+               if ex == "L" else "with higher = lower `%s` evaluates to %s, which is not the lane element bit for bit (a 64-bit integer does not "
+               "survive a round trip through f64)" % (rshow(t), ex), what="strategies differ when both neighbours coincide")
+        n_ok += 1
         for fam in FAMILIES:
             ra = RangeAnalysis(fam)
             fb = ra.bounds(t, s_)
